@@ -117,16 +117,18 @@ def newline : Str := ['\n']
 
 def startsWithComment (s : Str) : Bool := dashDash.isPrefixOf s || slashStar.isPrefixOf s
 
-/-- `parse_comment_from_sql_segment` → (comment, remaining) -/
+/-- `parse_comment_from_sql_segment` → (comment, remaining).  A comment that is not closed - no newline
+after "--", no "*/" after "/*" - runs to the end of the text, as it does for SQLite (repair of C07-21;
+before it `str.index` raised ValueError). -/
 def parseComment (s : Str) : Py (Str × Str) :=
   if dashDash.isPrefixOf s then
     match findSub newline s with
-    | none => .error .valueError
+    | none => .ok (s, [])
     | some i => .ok (s.take (i + 1), s.drop (i + 1))
   else if slashStar.isPrefixOf s then
-    -- `sql_segment.index("*/", 2)`: the closing "*/" is looked for after the opening "/*" (41d65d3)
+    -- `sql_segment.find("*/", 2)`: the closing "*/" is looked for after the opening "/*" (41d65d3)
     match findSub starSlash (s.drop 2) with
-    | none => .error .valueError
+    | none => .ok (s, [])
     | some i => .ok (s.take (i + 4), s.drop (i + 4))
   else .error .attributeError          -- `sql_segment.number` in the error branch
 
@@ -454,9 +456,10 @@ def kWITHOUT : Str := ['W','I','T','H','O','U','T']
 def kROWID : Str := ['R','O','W','I','D']
 
 /-- the unquoted branch of `_get_master_schema_row_name_and_remaining_sql`; `acc` = characters
-passed (reversed) -/
-def unquotedName (acc : Str) : Str → Py (Str × Str)
-  | [] => .error .parseError
+passed (reversed); `endOk` = `name_may_end_statement` (repair of C07-22: the module name of a virtual
+table may be the last thing in the statement) -/
+def unquotedName (endOk : Bool) (acc : Str) : Str → Py (Str × Str)
+  | [] => if endOk then .ok (acc.reverse, []) else .error .parseError
   | c :: tl =>
       if isSpace c || c == '(' || c == '-' || c == '/' then
         if c == '-' || c == '/' then
@@ -467,17 +470,18 @@ def unquotedName (acc : Str) : Str → Py (Str × Str)
               else .ok (acc.reverse, c :: tl)
         else .ok (acc.reverse, c :: tl)
       else if c == '.' then .error .parseError
-      else unquotedName (c :: acc) tl
+      else unquotedName endOk (c :: acc) tl
 
-/-- `_get_master_schema_row_name_and_remaining_sql` (row type table) -/
-def rowNameAndRest (t : Str) : Py (Str × Str) :=
+/-- `_get_master_schema_row_name_and_remaining_sql` (row type table or index);
+`endOk` = `name_may_end_statement`, false for table and index names -/
+def rowNameAndRest (t : Str) (endOk : Bool := false) : Py (Str × Str) :=
   match t with
   | [] => .error .indexError
   | _ :: _ =>
       match quotedName t with
       | some none => .error .parseError
       | some (some (name, n)) => .ok (name, t.drop n)
-      | none => unquotedName [] t
+      | none => unquotedName endOk [] t
 
 /-- `while s.startswith(("--", "/*")): comment, s = parse_comment(s); …; s = s.lstrip()`;
 returns the rest and the number of comments taken -/
